@@ -33,6 +33,23 @@ HAND = [
 ]
 
 
+# texts that may or may not parse (if they do, they must round-trip): names that collide with constructor-like words
+CORNER = [
+    "fn Left(x: u8) -> u8 { x }\nfn main() { let y: u8 = Left (1); }",
+    "fn Right(x: u8) -> u8 { x }\nfn main() { let y: u8 = Right (1); }",
+    "fn Some(x: u8) -> u8 { x }\nfn main() { let y: u8 = Some (1); }",
+    "fn Some(x: u8) -> u8 { x }\nfn main() { let y: u8 = Some\n(1); }",
+    "fn None() -> u8 { 1 }\nfn main() { let y: u8 = None (); }",
+    "fn list(x: u8) -> u8 { x }\nfn main() { let y: u8 = list (1); let z: List<u8, 2> = list![1]; }",
+    "fn main() { let Left: u8 = 1; let Some: u8 = 2; let t: (u8, u8) = (Left, Some); }",
+    "fn witness(x: u8) -> u8 { x }\nfn main() { let witness: u8 = witness (1); let param: u8 = 2; }",
+    "fn jet(x: u8) -> u8 { x }\nfn main() { let y: u8 = jet (1); }",
+    "fn Either(x: u8) -> u8 { x }\nfn main() { let y: u8 = Either (1); }",
+    "fn true_(x: u8) -> u8 { x }\nfn main() { let y: u8 = true_ (1); }",
+    "type Lefty = u8;\nfn main() { let y: Lefty = 1; match Left (y) { Left(a: u8) => (), Right(b: u8) => (), }; }",
+]
+
+
 def run(chk, replay=None):
     build_harness()
     corelib.tables()
@@ -50,6 +67,8 @@ def run(chk, replay=None):
         texts.append(("example", open(f).read(), None))
     for t in HAND:
         texts.append(("hand", t, None))
+    for t in CORNER:
+        texts.append(("corner", t, None))
     # the generated (well-typed) family, plain and re-laid-out
     for g in corelib.gen_programs(chk, 60 if quick else 1500, "gprint", size=30 if quick else 50):
         args = corelib.bindings_sx([(n, v) for (n, _, v) in g.params])
@@ -100,6 +119,19 @@ def run(chk, replay=None):
     t2 = impl("ptree", ["(ptree %s)" % quote(p[3]) for p in parsed])
     mp = model("front", ["(mprint %s)" % sx(parse_sx(p[4])[1]) for p in parsed])
     mw = model("front", ["(mwf %s)" % sx(parse_sx(p[4])[1]) for p in parsed])
+    # the character-level reader of the model (lexer of Text/ProgLex.v + token parser) against pest + parse.rs, on the text and on its print
+    ml = model("front", ["(mparse %s %s)" % (quote(p[1]), sx(parse_sx(p[4])[1])) for p in parsed])
+    mlp = model("front", ["(mparse %s %s)" % (quote(p[3]), sx(parse_sx(p[4])[1])) for p in parsed])
+    for (kind, text, args, printed, tr, ln), a, b in zip(parsed, ml, mlp):
+        for which, r, t in (("text", a, text), ("printed", b, printed)):
+            chk.count("lex.%s.%s" % (which, r.replace("(", "").replace(")", "").replace(" ", "_")[:40]))
+            if r.startswith("(parse same)"):
+                continue
+            if "names_ok false" in r:
+                continue   # a name that the context-free lexer model reserves (outside C16_print_parse_text's hypothesis)
+            chk.violation({"class": "lex-model", "what": "%s of %s: %s || %s" % (which, kind, r, t[:200])},
+                          {"cmd": "ptree", "line": "(ptree %s)" % quote(t), "text": t, "model": r, "implementation": sx(parse_sx(tr)[1])[:3000],
+                           "broken": "correspondence: pest + parse.rs vs the lexer and token parser of Text/ProgLex.v / ProgPrint.v on the same text"})
     for (kind, text, args, printed, tr, ln), tr2, m, w in zip(parsed, t2, mp, mw):
         base = {"cmd": "ptree", "line": ln, "text": text, "printed": printed}
         a = norm_spans(sx(parse_sx(tr)[1]))
